@@ -36,13 +36,15 @@ pub enum Op {
     PeerSendSkip,
     PeerPropose,
     OwnPropose,
+    /// B proposes new group context extensions (kept in its own-proposal cache)
+    OwnProposeGce,
     OwnCommitPending,
     OwnCommitApply,
     /// an application message A sent in an earlier epoch reaches B now
     LateMsg,
 }
 
-const OPS: [Op; 10] = [Op::PeerCommitEmpty, Op::PeerCommitAdd, Op::PeerCommitRemove, Op::PeerSend, Op::PeerSendSkip, Op::PeerPropose, Op::OwnPropose, Op::OwnCommitPending, Op::OwnCommitApply, Op::LateMsg];
+const OPS: [Op; 11] = [Op::PeerCommitEmpty, Op::PeerCommitAdd, Op::PeerCommitRemove, Op::PeerSend, Op::PeerSendSkip, Op::PeerPropose, Op::OwnPropose, Op::OwnProposeGce, Op::OwnCommitPending, Op::OwnCommitApply, Op::LateMsg];
 
 #[derive(Clone, Debug)]
 pub struct Case {
@@ -204,6 +206,18 @@ impl<'a> Run<'a> {
                     }
                 }
                 self.ctx.goal("own-update-outstanding");
+                true
+            }
+            Op::OwnProposeGce => {
+                self.twin_acts("proposal", &|g: &mut G| g.propose_group_context_extensions(custom_ext(7), vec![]).ok());
+                let w = &mut self.w;
+                let Ok(m) = w.gm(B).propose_group_context_extensions(custom_ext(7), vec![]) else { return false };
+                for p in w.members() {
+                    if p != B {
+                        let _ = w.process(p, &m);
+                    }
+                }
+                self.ctx.goal("own-gce-proposal-outstanding");
                 true
             }
             Op::OwnCommitPending => {
@@ -421,7 +435,7 @@ pub fn meta(tier: &str) -> Meta {
     let n = cases(tier).len();
     Meta {
         level: "fault_enumeration",
-        rule: "every history over 10 operations of the target member (peer commit empty/add/remove, in-order and out-of-order application message, peer proposal, own update proposal, own commit left pending, own commit applied, late message of a prior epoch) up to the depth bound x every non-empty set of positions at which write_to_storage is called x every reload point x retention x which shipped store answers; each case is executed from scratch on the real implementation with the tee store (in-memory + SQLite + model); crash point = end of the history, i.e. after any number of unwritten operations following the last write (every prefix is itself a case); a case is non-trivial when its history is applicable".into(),
+        rule: "every history over 11 operations of the target member (peer commit empty/add/remove, in-order and out-of-order application message, peer proposal, own update proposal, own group-context-extensions proposal, own commit left pending, own commit applied, late message of a prior epoch) up to the depth bound x every non-empty set of positions at which write_to_storage is called x every reload point x retention x which shipped store answers; each case is executed from scratch on the real implementation with the tee store (in-memory + SQLite + model); crash point = end of the history, i.e. after any number of unwritten operations following the last write (every prefix is itself a case); a case is non-trivial when its history is applicable".into(),
         assumptions: {
             let mut a = default_assumptions();
             a.push("crash points lie between GroupStateStorage calls; atomicity of one write inside SQLite / the in-memory mutex is assumed".into());
